@@ -585,6 +585,10 @@ func (n *PathRecursiveNode) Index(_ int) (PathNode, bool, error) {
 
 func valueToSliceValue(v interface{}) []interface{} {
 	rv := reflect.ValueOf(v)
+	if !rv.IsValid() {
+		// a member that was found and holds null
+		return []interface{}{v}
+	}
 	ret := []interface{}{}
 	if rv.Type().Kind() == reflect.Slice || rv.Type().Kind() == reflect.Array {
 		for i := 0; i < rv.Len(); i++ {
